@@ -24,6 +24,7 @@ type cParams struct {
 	Events []string  `json:"events"`
 	Replay bool      `json:"replay"` // server replays its notification log from the id given in Ready
 	Preload int      `json:"preload"` // notifications already in the server's log when the client connects
+	ExtraDepth int   `json:"extra_depth,omitempty"` // explore this scenario deeper than the check's base depth
 }
 
 type noteRec struct {
@@ -225,12 +226,16 @@ func (w *CWorld) eventEnabled(ev string) bool {
 	case "unsol", "note", "drop":
 		return alive && sc.acceptSent != ""
 	case "call":
+		n := 0
 		for _, c := range w.calls {
 			if c.Kind == f[1] && c.Key == f[2] {
-				return false // each (kind,key) once per history
+				if !c.Done {
+					return false // one call per (kind,key) at a time ...
+				}
+				n++
 			}
 		}
-		return true
+		return n < 2 // ... and one retry after it returned
 	case "ready":
 		return alive && sc.acceptSent == "valid" && !sc.readyGot && !w.autoReady
 	case "stop":
@@ -345,22 +350,28 @@ func (w *CWorld) oracleCalls() {
 			w.fail("C16", "response-reaches-its-call", "call returned another request's response ("+c.Kind+")", fmt.Sprintf("%s:%s returned %q, want %q", c.Kind, c.Key, c.Result, expectedResult(c)))
 			continue
 		}
-		if r != nil && r.Answered != "" && r.AnsAt-c.Start >= timeout-int64(time.Second) {
+		// the request time-out runs from the moment the request was handed to the connection (a call
+		// issued before the handshake completed waits for it first)
+		base := c.Start
+		if r != nil && r.At > base {
+			base = r.At
+		}
+		if r != nil && r.Answered != "" && r.AnsAt-base >= timeout-int64(time.Second) {
 			continue // answered around or after the time-out: either outcome is legitimate
 		}
 		switch {
-		case r != nil && r.Answered == "proper" && r.AnsAt-c.Start < timeout && !w.droppedBetween(r.At, r.AnsAt):
+		case r != nil && r.Answered == "proper" && r.AnsAt-base < timeout && !w.droppedBetween(r.At, r.AnsAt):
 			want := expectedResult(c)
 			if c.Err != nil {
 				cls := "answered call failed (" + c.Kind + ")"
 				if cause == client.ErrTimeout {
 					cls = "answered call timed out (" + c.Kind + ")"
 				}
-				w.fail("C16", "response-reaches-its-call", cls, fmt.Sprintf("%s:%s was answered by the server %d ms after the call started but returned %v", c.Kind, c.Key, (r.AnsAt-c.Start)/1e6, c.Err))
+				w.fail("C16", "response-reaches-its-call", cls, fmt.Sprintf("%s:%s was answered by the server %d ms after the request reached it but returned %v", c.Kind, c.Key, (r.AnsAt-base)/1e6, c.Err))
 			} else if c.Result != want {
 				w.fail("C16", "response-reaches-its-call", "call returned another request's response ("+c.Kind+")", fmt.Sprintf("%s:%s returned %q, want %q", c.Kind, c.Key, c.Result, want))
 			}
-		case r != nil && r.Answered == "reject" && r.AnsAt-c.Start < timeout && !w.droppedBetween(r.At, r.AnsAt):
+		case r != nil && r.Answered == "reject" && r.AnsAt-base < timeout && !w.droppedBetween(r.At, r.AnsAt):
 			re, ok := cause.(client.RejectError)
 			if !ok {
 				if c.Kind == "getheaders" || c.Kind == "feequotes" {
@@ -371,13 +382,30 @@ func (w *CWorld) oracleCalls() {
 				w.fail("C16", "reject-surfaces", "reject error carries another request's code/message ("+c.Kind+")", fmt.Sprintf("%s:%s got reject %q, want %q", c.Kind, c.Key, re.Description, "no:"+r.Kind+":"+r.Key))
 			}
 		default:
+			// Responses carry no request id, only the key: a late answer to an earlier call with the
+			// same kind and key that arrives while this call is pending answers this call just as well.
+			sibling := false
+			for _, x := range w.reqs {
+				if x != r && x.Kind == c.Kind && x.Key == c.serverKey() && x.Answered != "" && x.AnsAt >= c.Start && x.AnsAt <= c.End {
+					sibling = true
+				}
+			}
+			if sibling {
+				if c.Err == nil && c.Result != expectedResult(c) {
+					w.fail("C16", "response-reaches-its-call", "call returned another request's response ("+c.Kind+")", fmt.Sprintf("%s:%s returned %q, want %q", c.Kind, c.Key, c.Result, expectedResult(c)))
+				}
+				continue
+			}
+			if r != nil && r.Answered != "" {
+				continue // answered, but a connection drop is in play: the answer may or may not have got through
+			}
 			// no (timely) answer: must time out at the request time-out without disturbing others
 			if c.Err == nil {
 				w.fail("C16", "unanswered-times-out", "unanswered call returned success ("+c.Kind+")", fmt.Sprintf("%s:%s returned %q although the server never answered it", c.Kind, c.Key, c.Result))
 			} else if _, isRej := cause.(client.RejectError); isRej {
 				w.fail("C16", "response-reaches-its-call", "unanswered call got a reject meant for another request ("+c.Kind+")", fmt.Sprintf("%s:%s: %v", c.Kind, c.Key, c.Err))
-			} else if cause == client.ErrTimeout && r != nil && c.End-c.Start > timeout+int64(2*time.Second) && !w.anyDrop() {
-				w.fail("C16", "unanswered-times-out", "time-out much later than the configured request time-out", fmt.Sprintf("%s:%s timed out after %d ms (request time-out %d ms)", c.Kind, c.Key, (c.End-c.Start)/1e6, timeout/1e6))
+			} else if cause == client.ErrTimeout && r != nil && c.End-base > timeout+int64(2*time.Second) && !w.anyDrop() {
+				w.fail("C16", "unanswered-times-out", "time-out much later than the configured request time-out", fmt.Sprintf("%s:%s timed out %d ms after its request reached the server (request time-out %d ms)", c.Kind, c.Key, (c.End-base)/1e6, timeout/1e6))
 			}
 		}
 	}
